@@ -1,5 +1,5 @@
 """C02: field resolution across layers: define, inherit, drop - never a stale field."""
-from props import stackcorr
+from props import stackcorr, multifield
 
 MODEL_DEPS = ['CheckLib', 'NameLevel']
 KERNELS = ('AntiSet', 'Graph')
@@ -11,4 +11,5 @@ ASSUMPTIONS = ['iteration order of Python sets does not matter: the model is sta
 
 
 def run(ctx):
-    return stackcorr.run(ctx, optional=False, brackets=False, pid='C02')
+    res = stackcorr.run(ctx, optional=False, brackets=False, pid='C02')
+    return multifield.add(ctx, res, 'C02')
